@@ -11,11 +11,22 @@ Bounded exhaustive exploration of *declaration histories* against the real rsome
   maskill  every such sequence followed by every overlapping rectangle: must raise
   pair     every pair of partitions combined in one expression by +, -, concat/stack, atoms, bi-affine terms
   late/int/mul   adaptation declared after use, affine adaptation of integer decisions, adaptive x random
+  order    two event-wise decisions x, y whose partitions are declared by an adapt *timeline* (every history of x, a
+           palette of histories of y, x-then-y / y-then-x / alternating); the coupling constraint x + y >= c in 18
+           spellings (operand orders, both-sides, scaled, three operands, concat/vec/indexed, maxof pieces, equality with
+           slack, abs, with a random right-hand side, as an expectation constraint) is written - as an expression, as a
+           constraint object, or stated - at EVERY point of the timeline (before / between / after the adapt calls), and
+           likewise the objective and the single-variable constraints; every spelling at every point denotes the model
+           with the FINAL partitions
+  seq and order also read the solution back through x.get(): one value per scenario, labelled in scenario order, the
+           value of the scenario's event (all histories = all partitions in all listing orders x labellings)
 
 Oracles (none uses rsome): R-part partition calculus (declared partition, coarsest common refinement), column
 sharing read from the compiled program, closed-form optima of discriminating models (sum_s p_s max_{t~s} d_t; sum of
-|B_ij| over undeclared cells) and a scipy LP for the coupled two-partition models, NaN pattern / invariance of the
-returned rule off the declared mask.
+|B_ij| over undeclared cells) and a scipy LP for the coupled two-partition models (one LP variable per decision and
+event), NaN pattern / invariance of the returned rule off the declared mask; reported solutions are judged by a
+certificate (constant on events, feasible in every scenario, attains the reference optimum), not by comparison with
+one LP solution.
 """
 import itertools
 import numpy as np
@@ -29,10 +40,15 @@ FLOOR = 0.5
 RULE = ('every adapt history (ordered disjoint blocks) on S scenarios x labels {default int, unordered strings, permuted '
         'ints} x block forms {scalar/list, list, tuple, fset[..], fset.loc, fset.iloc}; every illegal continuation; every '
         'ordered sequence of disjoint rectangle declarations over a (rows<=2) x (components<=3) mask for ro rules and dro '
-        'affine decisions, every overlapping re-declaration; every pair of partitions x combiner. A passing case is '
+        'affine decisions, every overlapping re-declaration; every pair of partitions x combiner; every adapt timeline of '
+        'two decisions (every history of x, x then y / y then x) x every point of the timeline at which a coupling constraint '
+        '(18 spellings) is built as expression / built as constraint / stated, or the objective is stated, judged against '
+        'a scipy LP with the final partitions, the solution read back with get() judged by a feasibility + optimality '
+        'certificate; get() of every history x labelling against the closed form. A passing case is '
         'non-trivial when the model solved to optimality and the declared structure is not the trivial one (S>=2 for '
         'partitions; at least one cell for masks) or, for must-raise cases, when the reference classifies the continuation '
-        'as illegal; distinct = distinct canonical case')
+        'as illegal; for timelines when the reference optimum with the coupling constraint exceeds the one without it by '
+        '> 1e-3 (the constraint is binding); distinct = distinct canonical case')
 ASSUMPTIONS = [
     'LP answers through HiGHS compared with tolerance 1e-6*(1+|v|)',
     'discriminating palettes: all partitions of S<=4 scenarios have pairwise distinct closed-form optima (asserted at import)',
@@ -40,8 +56,11 @@ ASSUMPTIONS = [
     'dro: a declaration made after the decision was used but before any formulation may either raise or be honoured exactly',
     'event_adapt of *constraints* is not judged (never read by the compiler); only variables and expressions are',
     'the state left behind by a declaration that raised is not judged',
+    'order: an adapt() call made after the decision was used in an expression may raise (then the case passes as trivial); if '
+    'it is accepted the model solved afterwards must be the one with the final partitions, wherever the constraint was written',
+    'order: x.get() of a decision with a single event may be a plain array (documented) or a per-scenario Series',
 ]
-TRUSTED = ['CPython', 'NumPy', 'scipy.optimize.linprog (HiGHS) for the coupled two-partition reference LP',
+TRUSTED = ['CPython', 'NumPy', 'scipy.optimize.linprog (HiGHS) for the coupled two-partition / event-decision reference LPs',
            'HiGHS through rsome default solver as the solver under the models', 'c12c13_part (partition calculus, <200 lines)']
 
 for _n in (1, 2, 3, 4):
@@ -73,6 +92,15 @@ RO_USES = ('to_affine', 'add', 'radd', 'neg', 'mul', 'matmul', 'sub_add', 'le', 
 RO_NONUSES = ('getitem', 'shape')
 DRO_STAGES = ('expr', 'constr', 'st', 'do_math', 'solve')
 DRO_DECLS = ('evt', 'aff', 'affslice')
+# ---- order family: constraints / objective written at every point of the adapt timeline
+ORDER_KINDS = ('x+y>=c', 'y+x>=c', 'c<=x+y', 'x>=c-y', 'c-y<=x', '-x-y<=-c', '2(x+y)>=2c', 'x-(c-y)>=0', 'x+q+y>=c+1',
+               'concat', 'concat-r', 'vec', 'idx', 'maxof', 'eq-slack', 'abs', 'rand', 'E')
+ORDER_KINDS_CORE = ('x+y>=c', 'concat', 'x>=c-y', 'maxof')
+ORDER_STAGES = ('expr', 'constr', 'st')
+# partitions of the second decision: static, one scenario in the middle / interleaved (listed out of scenario order),
+# all singletons declared out of order
+ORDER_HY = {2: ([], [[1]], [[0]]), 3: ([], [[1]], [[0, 2]], [[2], [0]]), 4: ([], [[1, 2]], [[3], [0, 2]])}
+ORDER_HX_REP = {2: ([[1]], [[0]]), 3: ([[1]], [[0, 2]], [[2], [0]], [[0], [1]], [[2]])}
 MUL_HOWS = ('whole', 'slice', 'late-whole', 'late-slice', 'idx-whole')
 MUL_PRODS = ('x*z', 'z*x', 'x@z', 'z@x', 'x0*z0', '(x+1)*z', 'sum*z0', 'x1*z1')
 
@@ -238,6 +266,56 @@ def _gen_all(tier, seed):
         for prod in MUL_PRODS:
             for n in (1, 2):
                 yield {'fam': 'mul', 'how': how, 'prod': prod, 'n': n}
+    # ---- a constraint / the objective combining two decisions, written at every point of the adapt timeline
+    for case in _gen_order(th, pal, pals):
+        yield case
+
+
+def _order_timeline(hx, hy, ordr):
+    cx = [['x', b] for b in hx]
+    cy = [['y', b] for b in hy]
+    if ordr == 'xy':
+        return cx + cy
+    if ordr == 'yx':
+        return cy + cx
+    out = []
+    for i in range(max(len(cx), len(cy))):
+        out += cx[i:i + 1] + cy[i:i + 1]
+    return out
+
+
+def _gen_order(th, pal, pals):
+    def points(n, hx, hy, kinds, stages, obj, pls, ords=('xy', 'yx')):
+        seen = []
+        for ordr in ords + (('alt',) if th else ()):
+            tl = _order_timeline(hx, hy, ordr)
+            if tl in seen:
+                continue
+            seen.append(tl)
+            L = len(tl)
+            for k in range(L + 1):
+                for stage in (stages if k < L else ('st',)):
+                    for kind in kinds:
+                        for pl in pls:
+                            yield {'fam': 'order', 'n': n, 'tl': tl, 'hx': hx, 'hy': hy, 'k': k, 'stage': stage, 'kind': kind,
+                                   'obj': obj, 'pal': pl}
+    for n in ((2, 3, 4) if th else (2, 3)):
+        hxs = P.adapt_histories(n) if n <= 3 else [h for h in P.adapt_histories(n) if len(h) <= 2]
+        for hx in hxs:
+            for hy in ORDER_HY[n]:
+                # every history of x: core spellings, written as expression / constraint / stated, at every point
+                for c in points(n, hx, hy, ORDER_KINDS_CORE if (th and n <= 3) else ORDER_KINDS_CORE[:2],
+                                ORDER_STAGES if th else ('expr', 'st'), 'end', (pal,)):
+                    yield c
+                # the objective and the single-variable constraints are written first as well
+                for c in points(n, hx, hy, ('x+y>=c',), ('st',), 'first', pals if n <= 3 else (pal,), ('xy',)):
+                    yield c
+    for n in (2, 3):
+        for hx in ORDER_HX_REP[n]:
+            for hy in (ORDER_HY[n] if th else ORDER_HY[n][:3]):
+                for c in points(n, hx, hy, ORDER_KINDS, ORDER_STAGES if th else ('constr',), 'end', (pal,),
+                                ('xy', 'yx') if th else ('xy',)):
+                    yield c
 
 
 def exhaustive(tier):
@@ -252,6 +330,16 @@ def bounds(tier):
             'partition_pairs': {n: len(P.set_partitions(n)) ** 2 for n in (2, 3, 4)},
             'partition_listing_pairs': {n: len(P.listing_histories(n)) ** 2 for n in ((2, 3, 4) if th else (2, 3))},
             'combiners': len(COMBS),
+            'order_scenarios_max': 4 if th else 3, 'order_spellings': len(ORDER_KINDS),
+            'order_spellings_all_histories': len(ORDER_KINDS_CORE if th else ORDER_KINDS_CORE[:2]),
+            'order_histories_x': {n: len(P.adapt_histories(n)) for n in (2, 3)},
+            'order_histories_y': {n: len(ORDER_HY[n]) for n in ((2, 3, 4) if th else (2, 3))},
+            'order_histories_x_all_spellings': {n: len(ORDER_HX_REP[n]) for n in (2, 3)},
+            'order_timeline_calls_max': 5, 'order_points': 'every point 0..L of the timeline',
+            'order_stages': {'all histories': list(ORDER_STAGES) if th else ['expr', 'st'],
+                             'all spellings': list(ORDER_STAGES) if th else ['constr']},
+            'order_call_orders': ['xy', 'yx'] + (['alt'] if th else []),
+            'order_scenarios_4': 'histories of x with <= 2 calls, 2 spellings' if th else 'not enumerated',
             'palettes': 4 if th else 1}
 
 
@@ -394,6 +482,22 @@ def _run_seq(case):
             return _viol(tag + '|scenario value differs from closed form',
                          'history %s scenario %d: %s expected %s' % (P.fmt_hist(hist), s, val.tolist(), (g * xs[s]).tolist()),
                          ops.n)
+    # ---- (c) the values reported by get(): one per scenario, labelled in scenario order, the value of the scenario's event
+    for name, v, shape, exp in (('x', x, (2,), [g * xs[s] for s in range(n)]), ('w0', w0, (2,), [g0 * ws[s] for s in range(n)]),
+                                ('w1', w1, (), [np.array(1.5)] * n)):
+        try:
+            obs = v.get()
+            ops()
+        except Exception as ex:  # noqa
+            return _viol(tag + '|solution query raised', '%s.get(): %s %s' % (name, Bd.errname(ex), ex), ops.n)
+        vals = _per_scenario(obs, n, shape, labels)
+        if vals is None:
+            return _viol(tag + '|reported solution is not one value per scenario (labelled in scenario order)',
+                         'history %s: %s.get() = %r' % (P.fmt_hist(hist), name, obs), ops.n)
+        if any(not np.allclose(a_, e_, rtol=0, atol=1e-6 * (1 + np.abs(e_).max())) for a_, e_ in zip(vals, exp)):
+            return _viol(tag + '|value reported for a scenario is not the value of its event',
+                         'history %s events %s: %s.get() %s expected %s' %
+                         (P.fmt_hist(hist), v.event_adapt, name, [a_.tolist() for a_ in vals], [e_.tolist() for e_ in exp]), ops.n)
     return {'status': 'pass', 'outcome': 'seq:ok blocks=%d' % len(part), 'ops': ops.n, 'nontrivial': n >= 2,
             'states': len(hist) + 1, 'transitions': ops.n, 'validated': 1}
 
@@ -1161,6 +1265,192 @@ def _run_pairopt(case):
         return _viol(tag + '|optimum differs from the reference LP',
                      '%s with %s: objective %r reference %r' % (P.fmt_part(p1), P.fmt_part(p2), got, want), ops.n)
     return {'status': 'pass', 'outcome': 'pairopt:ok', 'ops': ops.n, 'nontrivial': True, 'validated': 1}
+
+
+# ----------------------------------------------------------------------------------------------- order
+def _per_scenario(obs, n, shape, labels=None):
+    """Per-scenario list of arrays of a DecVar.get() result: a Series labelled by the scenarios in scenario order, or a
+    plain array when the decision has a single event.  None when the result has another form."""
+    pd = _rs['pd']
+    if isinstance(obs, pd.Series):
+        if len(obs) != n or list(obs.index) != list(range(n) if labels is None else labels):
+            return None
+        items = [np.asarray(obs.iloc[i], dtype=float) for i in range(n)]
+    else:
+        items = [np.asarray(obs, dtype=float)] * n
+    if any(it.shape != tuple(shape) for it in items):
+        return None
+    return items
+
+
+def _run_order(case):
+    """Two event-wise decisions x, y (2 entries each) whose partitions are declared by the adapt timeline `tl`; the coupling
+    constraint x + y >= c (in the spelling `kind`) is written - as an expression, as a constraint object, or stated - just
+    before call number k of the timeline, the rest at the end; with obj='first' the objective and the single-variable
+    constraints are stated before every adapt call.  Every spelling at every point denotes the same model:
+
+        min sup E(cx.x + cy.y + sum q)   s.t.  x(s) >= g*d_s,  y >= 0,  q == 1,  x(s) + y(s) >= c      (per entry)
+
+    with x, y constant on the events of the FINAL partitions.  Reference: scipy LP with one variable per (decision, event,
+    entry); the values reported by x.get() / y.get() must be constant on events, feasible scenario by scenario and attain
+    the reference optimum (a certificate that does not depend on the LP solution being unique)."""
+    Bd = _rs['B']
+    rso = _rs['rso']
+    E = _rs['E']
+    n, tl, k, stage, kind, obj = case['n'], case['tl'], case['k'], case['stage'], case['kind'], case['obj']
+    hx = [b for v, b in tl if v == 'x']
+    hy = [b for v, b in tl if v == 'y']
+    px, py = P.declared_partition(hx, n), P.declared_partition(hy, n)
+    later = len(tl) - k
+    tag = 'order|%s|%s %s|objective %s' % (kind, {'expr': 'expression built', 'constr': 'constraint built',
+                                                  'st': 'constraint stated'}[stage],
+                                           'before a later adapt call' if later else 'after all adapt calls', obj)
+    ops = Bd.Ops()
+    p, d = P.palette_pd(n, case['pal'])
+    g = np.array([1.0, 2.0])
+    c = np.array([10.0, 20.0])
+    cx = np.array([2.0, 3.0])
+    cy = np.array([1.0, 1.5])
+    m = _rs['dro'].Model(n)
+    u = m.rvar()
+    x = m.dvar(2)
+    q = m.dvar(2)
+    y = m.dvar(2)
+    t = m.dvar(2)
+    fset = m.ambiguity()
+    for s in range(n):
+        fset.iloc[s].suppset(u == d[s])
+    fset.probset(m.p == p)
+    ops(8 + n)
+    M = np.hstack([np.eye(2), np.eye(2)])
+    one = np.ones(2)
+    exprs = {
+        'x+y>=c': lambda: [x + y], 'y+x>=c': lambda: [y + x], 'c<=x+y': lambda: [x + y], 'x>=c-y': lambda: [c - y],
+        'c-y<=x': lambda: [c - y], '-x-y<=-c': lambda: [-x - y], '2(x+y)>=2c': lambda: [2 * (x + y)],
+        'x-(c-y)>=0': lambda: [x - (c - y)], 'x+q+y>=c+1': lambda: [(x + q) + y],
+        'concat': lambda: [rso.concat((x, y))], 'concat-r': lambda: [rso.concat((y, x))],
+        'vec': lambda: [rso.vec(x[0], y[0]), rso.vec(y[1], x[1])], 'idx': lambda: [x[0] + y[0], y[1] + x[1]],
+        'maxof': lambda: [rso.maxof(c[0] - x[0] - y[0], c[1] - x[1] - y[1])],
+        'eq-slack': lambda: [x + y - t], 'abs': lambda: [abs(x + y - c - 10.0)], 'rand': lambda: [x + y],
+        'E': lambda: [E(x + y)]}[kind]
+    constrs = {
+        'x+y>=c': lambda e: [e[0] >= c], 'y+x>=c': lambda e: [e[0] >= c], 'c<=x+y': lambda e: [c <= e[0]],
+        'x>=c-y': lambda e: [x >= e[0]], 'c-y<=x': lambda e: [e[0] <= x], '-x-y<=-c': lambda e: [e[0] <= -c],
+        '2(x+y)>=2c': lambda e: [e[0] >= 2 * c], 'x-(c-y)>=0': lambda e: [e[0] >= 0], 'x+q+y>=c+1': lambda e: [e[0] >= c + 1],
+        'concat': lambda e: [M @ e[0] >= c], 'concat-r': lambda e: [M @ e[0] >= c],
+        'vec': lambda e: [one @ e[0] >= c[0], one @ e[1] >= c[1]], 'idx': lambda e: [e[0] >= c[0], e[1] >= c[1]],
+        'maxof': lambda e: [e[0] <= 0], 'eq-slack': lambda e: [e[0] == c, t >= 0], 'abs': lambda e: [e[0] <= 10.0],
+        'rand': lambda e: [e[0] >= c + 0.5 * g * u], 'E': lambda e: [e[0] >= c]}[kind]
+
+    def base():
+        m.minsup(E(cx @ x + cy @ y + q.sum()), fset)
+        m.st(x >= g * u, y >= 0, q == 1)
+        ops(4)
+    state = {}
+
+    def advance(upto):
+        order = ORDER_STAGES[:ORDER_STAGES.index(upto) + 1]
+        if 'expr' in order and 'e' not in state:
+            state['e'] = exprs()
+            ops(len(state['e']))
+        if 'constr' in order and 'c' not in state:
+            state['c'] = constrs(state['e'])
+            ops(len(state['c']))
+        if 'st' in order and 'st' not in state:
+            m.st(state['c'])
+            state['st'] = True
+            ops()
+    used = {'x': False, 'y': False}
+    try:
+        if obj == 'first':
+            base()
+            used = {'x': True, 'y': True}
+        for i, (v, blk) in enumerate(tl):
+            if i == k:
+                advance(stage)
+                used = {'x': True, 'y': True}
+            try:
+                (x if v == 'x' else y).adapt(blk[0] if len(blk) == 1 else list(blk))
+                ops()
+            except Exception as ex:  # noqa
+                if used[v]:   # a declaration after use may raise (ASSUMPTIONS); before any use it is an ordinary legal call
+                    return {'status': 'pass', 'outcome': 'order:adapt after use raises %s' % Bd.errname(ex), 'ops': ops.n,
+                            'nontrivial': False, 'validated': 1}
+                return _viol(tag + '|legal declaration raised', 'timeline %s call %d: %s %s' % (tl, i, Bd.errname(ex), ex), ops.n)
+        if kind == 'eq-slack':       # the slack takes one value per scenario, declared after every other adapt call
+            try:
+                for s in range(1, n):
+                    t.adapt(s)
+                    ops()
+            except Exception as ex:  # noqa
+                if 'e' in state:
+                    return {'status': 'pass', 'outcome': 'order:adapt after use raises %s' % Bd.errname(ex), 'ops': ops.n,
+                            'nontrivial': False, 'validated': 1}
+                return _viol(tag + '|legal declaration raised', 'slack: %s %s' % (Bd.errname(ex), ex), ops.n)
+        advance('st')
+        if obj != 'first':
+            base()
+    except Exception as ex:  # noqa
+        return _viol(tag + '|legal model failed to build', 'timeline %s: %s %s' % (tl, Bd.errname(ex), ex), ops.n)
+    if P.as_partition(x.event_adapt) != px or P.as_partition(y.event_adapt) != py:
+        return _viol(tag + '|event_adapt differs from declared partition',
+                     'timeline %s: x %s y %s' % (tl, x.event_adapt, y.event_adapt), ops.n)
+    try:
+        m.solve(display=False)
+        ops()
+    except Exception as ex:  # noqa
+        return _viol(tag + '|legal model failed to formulate', 'timeline %s: %s %s' % (tl, Bd.errname(ex), ex), ops.n)
+    if not Bd.is_optimal(m):
+        return {'status': 'vacuous', 'outcome': 'order:not optimal', 'ops': ops.n}
+    # ---- reference, entry by entry (the model is separable in the two entries)
+    want, slack_free, refs = 2.0, 2.0, []
+    for i in range(2):
+        lo = [g[i] * d, np.zeros(n)]
+        rows, erows = [([1.0, 1.0], np.full(n, c[i]))], []
+        if kind == 'rand':
+            rows = [([1.0, 1.0], c[i] + 0.5 * g[i] * d)]
+        elif kind == 'abs':
+            rows.append(([-1.0, -1.0], np.full(n, -(c[i] + 20.0))))
+        elif kind == 'E':
+            rows, erows = [], [([1.0, 1.0], c[i])]
+        ref = P.lp_event_decisions([px, py], p, [cx[i], cy[i]], rows, erows, lo)
+        if ref is None:
+            return {'status': 'vacuous', 'outcome': 'order:reference LP not solved', 'ops': ops.n}
+        want += ref[0]
+        slack_free += cx[i] * g[i] * P.optimum_event_max(px, p, d)      # optimum without the coupling: x = event max, y = 0
+        refs.append((rows, erows, lo))
+    got = float(m.get())
+    ops()
+    where = 'timeline %s, %s at point %d of %d' % (tl, stage, k, len(tl))
+    if not _close(got, want):
+        return _viol(tag + '|optimum differs from the reference LP',
+                     '%s: x events %s y events %s objective %r reference %r' % (where, P.fmt_part(px), P.fmt_part(py), got, want),
+                     ops.n)
+    # ---- reported solution: constant on events, feasible in every scenario, attains the optimum
+    try:
+        gx, gy, gq = x.get(), y.get(), q.get()
+        ops(3)
+    except Exception as ex:  # noqa
+        return _viol(tag + '|solution query raised', '%s: %s %s' % (where, Bd.errname(ex), ex), ops.n)
+    sx, sy = _per_scenario(gx, n, (2,)), _per_scenario(gy, n, (2,))
+    if sx is None or sy is None:
+        return _viol(tag + '|reported solution is not one value per scenario', '%s: x.get() %r y.get() %r' % (where, gx, gy), ops.n)
+    rep = 0.0
+    for i in range(2):
+        rows, erows, lo = refs[i]
+        vals = [[sx[s][i] for s in range(n)], [sy[s][i] for s in range(n)]]
+        bad, val = P.check_event_solution(vals, [px, py], p, [cx[i], cy[i]], rows, erows, lo, 1e-6)
+        if bad:
+            return _viol(tag + '|reported solution is not a solution of the declared model',
+                         '%s: x events %s y events %s entry %d: %s; x.get() %s y.get() %s' %
+                         (where, P.fmt_part(px), P.fmt_part(py), i, bad, [v.tolist() for v in sx], [v.tolist() for v in sy]), ops.n)
+        rep += val
+    rep += float(np.sum(np.asarray(gq, dtype=float)))
+    if abs(rep - want) > 1e-5 * (1 + abs(want)):
+        return _viol(tag + '|reported solution does not attain the optimum',
+                     '%s: objective of the reported values %r, optimum %r' % (where, rep, want), ops.n)
+    return {'status': 'pass', 'outcome': 'order:ok %s' % ('late' if later else 'control'), 'ops': ops.n,
+            'nontrivial': bool(want - slack_free > 1e-3), 'states': len(tl) + 1, 'transitions': ops.n, 'validated': 1}
 
 
 # ----------------------------------------------------------------------------------------------- late / int / mul
